@@ -88,14 +88,17 @@ def find_critical(R, Z, psi, atol, maxits, discard_xpoints=False):
     nx, ny = Bp2.shape
     for i in range(2, nx - 2):
         for j in range(2, ny - 2):
+            # Strict minimum, except that an exact tie with a neighbour is broken towards
+            # the lower index so that a critical point lying exactly midway between two
+            # nodes is not missed.
             if (
-                (Bp2[i, j] < Bp2[i + 1, j + 1])
-                and (Bp2[i, j] < Bp2[i + 1, j])
-                and (Bp2[i, j] < Bp2[i + 1, j - 1])
+                (Bp2[i, j] <= Bp2[i + 1, j + 1])
+                and (Bp2[i, j] <= Bp2[i + 1, j])
+                and (Bp2[i, j] <= Bp2[i + 1, j - 1])
                 and (Bp2[i, j] < Bp2[i - 1, j + 1])
                 and (Bp2[i, j] < Bp2[i - 1, j])
                 and (Bp2[i, j] < Bp2[i - 1, j - 1])
-                and (Bp2[i, j] < Bp2[i, j + 1])
+                and (Bp2[i, j] <= Bp2[i, j + 1])
                 and (Bp2[i, j] < Bp2[i, j - 1])
             ):
                 # Found local minimum
